@@ -161,6 +161,21 @@ def run_programs(gw, rng, big=False):
         T.append(["concurrent", k, [g[1] for g in got], all(g[2] == bytes([65 + k]) * 150000 for g in got)])
     ch.send(None)
     ch.waitclose(10)
+    # 9b. one thread with multi-megabyte items, another with tiny ones, at the same time: neither stream disturbs the other
+    ch = gw.remote_exec("c1 = channel.gateway.newchannel()\nc2 = channel.gateway.newchannel()\nchannel.send(c1)\nchannel.send(c2)\n"
+                        "import hashlib\nc1.setcallback(lambda x: c1.send((len(x), hashlib.sha1(x).hexdigest())))\nc2.setcallback(c2.send)\nchannel.receive()\n")
+    big_c, tiny_c = ch.receive(10), ch.receive(10)
+    blob = bytes(range(256)) * 8192  # 2 MiB
+    ths = [threading.Thread(target=lambda: [big_c.send(blob) for _ in range(4)]), threading.Thread(target=lambda: [tiny_c.send(i) for i in range(400)])]
+    for t in ths:
+        t.start()
+    for t in ths:
+        t.join(60)
+    bigs = [big_c.receive(30) for _ in range(4)]
+    tinies = [tiny_c.receive(30) for _ in range(400)]
+    T.append(["big-and-tiny", all(b == (len(blob), hashlib.sha1(blob).hexdigest()) for b in map(tuple, bigs)), tinies == list(range(400))])
+    ch.send(None)
+    ch.waitclose(10)
     # 10. items still in flight when the gateway is told to exit are delivered (the remote code keeps running for a moment)
     ch = gw.remote_exec("import time\nchannel.send('before')\nchannel.receive()\ntime.sleep(0.4)\nchannel.send('after-exit-1')\nchannel.send(b'q' * 200000)\nchannel.send('after-exit-2')")
     first = ch.receive(10)
@@ -214,4 +229,17 @@ def control_requests(group, execmodel="thread", python=None):
     out["pending_wait_returned"] = not th.is_alive()
     if out["gone_after_wait_then_kill_ms"] == -1:
         procs.reap([pid2])
+    # the worker has closed its connection but its process lingers (a non-daemon thread of the remote code): kill still reaches it
+    gw3 = group.makegateway(f"popen//via=ctlm//execmodel={execmodel}//id=ctl3" + (f"//python={py}" if py else ""))
+    pid3 = gw3.remote_exec("import os, threading, time\nthreading.Thread(target=lambda: time.sleep(1000)).start()\nchannel.send(os.getpid())").receive(10)
+    gw3.exit()
+    gw3.join(10)
+    time.sleep(0.3)
+    out["lingering_before_kill"] = procs.alive(pid3)
+    killer = threading.Thread(target=gw3._io.kill, daemon=True)
+    killer.start()
+    out["gone_after_exit_then_kill_ms"] = procs.wait_gone([pid3], 5.0)[pid3]
+    killer.join(5)
+    if out["gone_after_exit_then_kill_ms"] == -1:
+        procs.reap([pid3])
     return out
